@@ -537,6 +537,9 @@ impl Engine for TrackerEngine {
         let tc: TrackerCase = serde_json::from_value(case["tracker"].clone()).expect("tracker case");
         let variants: Vec<Value> = case["variants"].as_array().cloned().unwrap_or_default();
         let mut out = Outcome::default();
+        if case["systematic"].as_bool().unwrap_or(false) {
+            out.stats.probe("small_scope_enumerated_histories", 1);
+        }
         let mut plan = plan.clone();
         plan.calm = case["calm"].as_bool().unwrap_or(false);
         let prop = self.prop;
@@ -805,7 +808,7 @@ impl Engine for TrackerEngine {
         match self.prop {
             "C01" => format!("one evaluation = one generated multi-scene detection history (objects doing random walks, crowds, exact twins, empty calls, rotation, features) with lifecycle calls, executed on one of the four real trackers under one seeded schedule; every returned record is checked against the output contract and the stored track. {common}"),
             "C02" => format!("one evaluation = one generated history on Sort/BatchSort (IoU or Mahalanobis); every call is re-derived from the observable pre-state by RefSort (independent f64 geometry/Kalman, brute-force optimal assignment) and asserted when margins allow. {common}"),
-            "C03" => format!("one evaluation = one generated history with lifecycle calls on one of the four trackers under a seeded schedule, checked by the lifecycle/conservation model after every operation, plus re-executions of the same history under other auto-waste periodicities whose observable results must be identical. {common}"),
+            "C03" => format!("one evaluation = one generated history with lifecycle calls on one of the four trackers under a seeded schedule, checked by the lifecycle/conservation model after every operation, plus re-executions of the same history under other auto-waste periodicities whose observable results must be identical; the batch ends (quick) / starts (thorough) with the small-scope sub-batch of trackersim/systematic.rs: every lifecycle history of <=2 / <=4 operations over a 15-operation alphabet (two scenes in the same image region) for the four trackers and max_idle 0, 1, 2. {common}"),
             "C04" => format!("one evaluation = one interleaved multi-scene history on one of the four trackers plus one execution per scene of its projection (fresh tracker, other shard count, schedule, hash seed, GC plan); canonical per-scene streams must be equal. {common}"),
             "C05" => format!("one evaluation = reference execution (1 shard, run-to-block schedule) plus 3 (quick) or 5 (thorough) variants with 1..8 shards under swarm schedules, fresh hash seeds and candidate-id streams; record streams must be identical (ids included for simple trackers, up to renaming for batch trackers) up to the first step with a non-unique optimum. {common}"),
             "C13" => format!("one evaluation = one generated history (incl. long single-object lifetimes, quality sequences increasing / decreasing / constant / random around the collect threshold, features present or absent, history lengths 1..10, max observations 1..6) on one of the four trackers; after every quiescent operation every stored track's box/feature histories and appearance gallery are compared with the per-track model, as are the tracks returned by wasted(). {common}"),
